@@ -215,7 +215,7 @@ def one(ctx, i, rep=None):
 
 
 def run(ctx):
-    for i in ctx.indices(2000 if ctx.tier == 'quick' else 50000, 'random'):
+    for i in ctx.indices(8000 if ctx.tier == 'quick' else 50000, 'random'):
         one(ctx, i)
     ctx.count('grammar_variants', len({k[0] for k in _mms}))
 
